@@ -60,4 +60,9 @@ def rejectStopsWorkers : Bool := true
     identifiers (true since the `fix:` commit). -/
 def originKeyPerConn : Bool := true
 
+/-- `_receive_message` records the origin of requests only (true since the
+    `fix:` commit; the pinned tree also recorded received answers, which were
+    never released). -/
+def originOnlyRequests : Bool := true
+
 end DV.Config
